@@ -137,6 +137,8 @@ def _eval_reserved(expr, env, alias):
     if isinstance(op, (ast.In, ast.NotIn)):
       if l == 'name' and r == 'self.reservations':
         v = env['name_in']
+      elif l == 'None' and r == 'self.reservations':
+        v = False  # the keys of `reservations` are names (strings): None is never one of them
       elif l == 'None' and r in rset:
         v = env['name_in'] and env['none_in']
       elif l == 'col' and r in rset:
